@@ -26,10 +26,8 @@ func (msg *MsgPublishReferencePayloadLink) Type() string {
 }
 
 func (msg *MsgPublishReferencePayloadLink) GetSigners() []sdk.AccAddress {
-	creator, err := sdk.AccAddressFromBech32(msg.Creator)
-	if err != nil {
-		panic(err)
-	}
+	// no panic on a malformed address: x/authz and the ICA host ask a message for its signers before validating it
+	creator, _ := sdk.AccAddressFromBech32(msg.Creator)
 	return []sdk.AccAddress{creator}
 }
 
